@@ -14,13 +14,12 @@ RULE = (
     "enter/exit counter per flavour around a GIL-releasing time.sleep - separated by checkpoints; one 5 ms heartbeat payload per "
     "flavour; 0-4 thread payloads that block for 0.2-0.5 s or burn CPU; generated switch interval. Oracle: every event of every asyncio "
     "payload carries one thread id and one loop identity, every trio event one thread id and one trio token, the two threads differ "
-    "from each other and from all thread payloads' threads; no section ever saw its flavour's counter different from 1; during every "
-    "interval in which a thread payload was blocked each heartbeat logged >= 3 beats (judged in scenarios without CPU-burning threads). Non-trivial = an "
+    "from each other and from all thread payloads' threads; no section ever saw its flavour's counter different from 1; . Non-trivial = an "
     "executed and an adopted payload of the same flavour with sections and overlapping lifetimes; distinct = canonical JSON."
 )
 ASSUMPTIONS = [
     "absence of overlap is sampled; thread / loop / run identity makes the usual breakages (a private loop or trio.run per execute) deterministic to detect",
-    "heartbeat progress thresholds are far below the nominal rate (40-100 beats per blocking interval) to stay quiet on a loaded machine",
+    "a stall is reported only if it reproduces in three consecutive runs of the same scenario; heartbeat progress while a thread payload blocks is judged relative to an idle control window of the same run (>= 15 % of the control rate; skipped if the control window itself has < 8 beats), in scenarios without CPU-burning threads",
 ]
 BOUND = 25
 
@@ -84,8 +83,16 @@ def scenario(draw):
         for i in range(count):
             payloads.append({"id": 400 + i, "flavour": "threading", "role": "blocker", "kind": "block", "reg": {"how": "from"},
                              "program": [["mark-begin"], ["block", 300], ["mark-end"]], "end": ["return", "None"]})
-            callers[src].append((5, "adopt", 400 + i))
-        longest = 500
+            callers[src].append((5 + 2 * i, "adopt", 400 + i))  # spaced out: starting a thread is synchronous work inside the coroutine
+        longest = 500 + 2 * count
+    if draw(st.integers(0, 3)) == 0:
+        # an outside thread executes a payload that takes 300 ms while coroutine payloads keep adopting/executing
+        lflv = draw(st.sampled_from(ALL))
+        payloads.append({"id": 390, "flavour": lflv, "role": "blocker", "kind": "block", "how": "execute", "reg": {"how": "execute"}, "caller": "outside0",
+                         "program": [["mark-begin"], ["sleep", 300], ["mark-end"]], "end": ["return", "None"], "cleanup": {}})
+        callers["outside0"].append((draw(st.sampled_from([0, 5, 15])), "execute", 390))
+        longest = max(longest, 330)
+    late = draw(st.integers(0, 4)) == 0
     drivers = []
     for k in ("outside0", "outside1"):
         drivers.append([{"at_ms": t, "op": op, "pid": c} for t, op, c in sorted(callers[k])])
@@ -112,8 +119,23 @@ def scenario(draw):
         longest = max(longest, start + ms)
         payloads.append({"id": 300 + i, "flavour": "threading", "role": "blocker", "kind": kind, "reg": {"how": "pre"},
                          "program": [["sleep", start], ["mark-begin"], [kind, ms], ["mark-end"]], "end": ["return", "None"]})
-    total = max(longest + 60, 250)
-    drivers.append([{"at_ms": total, "op": "shutdown"}])
+    # after the last blocking interval the scenario idles for 200 ms: the heartbeat rate in that window is the
+    # control against which the rate during blocking intervals is judged (machine load affects both alike)
+    total = max(longest + 60, 250) + 200
+    drivers.append([{"at_ms": total - 190, "op": "mark", "name": "control-begin"}, {"at_ms": total - 10, "op": "mark", "name": "control-end"},
+                    {"at_ms": total, "op": "shutdown"}])
+    if late:
+        # executes issued around the moment of shutdown, while adopted payloads are still being cleaned up
+        script = []
+        for i in range(draw(st.integers(1, 3))):
+            flv = draw(st.sampled_from(COROUTINE))
+            payloads.append({"id": 380 + i, "flavour": flv, "role": "worker", "how": "execute", "caller": "outside-late", "reg": {"how": "execute"},
+                             "program": [["section", 1000], ["sleep", 1], ["section", 1000]], "end": ["return", "None"], "cleanup": {}})
+            script.append({"at_ms": total + draw(st.sampled_from([-10, 0, 3, 10, 40])), "op": "execute", "pid": 380 + i})
+        drivers.append(sorted(script, key=lambda x: x["at_ms"]))
+        for p in payloads:
+            if p["role"] == "worker" and p.get("how") != "execute" and p["flavour"] == "asyncio":
+                p["cleanup"] = {"sync_ms": 80}
     return {"runner": "service", "accept_delay": draw(st.sampled_from([0.005, 0.02])), "switchinterval": draw(switchinterval), "bound_s": BOUND,
             "linger_ms": 20, "payloads": payloads, "drivers": drivers, "direction": direction}
 
@@ -178,17 +200,34 @@ def judge(sc, obs) -> Result:
         if len(marks) < 2:
             continue
         t0, t1 = marks[0][0], marks[1][0]
+        ctrl = {e[4]["name"]: e[0] for e in events(obs, "mark")}
+        c0, c1 = ctrl.get("control-begin"), ctrl.get("control-end")
+        if c0 is None or c1 is None or t1 > c0:
+            continue
         for hb in (x for x in sc["payloads"] if x["role"] == "heartbeat"):
-            beats = [e for e in events(obs, "beat", hb["id"]) if t0 <= e[0] <= t1]
-            need = 3
-            if len(beats) < need:
-                res.fail("coroutines-stalled-by-thread", f"{hb['flavour']} heartbeat logged {len(beats)} beats during the {(t1 - t0) / 1e6:.0f} ms in which thread payload {p['id']} was in '{p['kind']}'")
+            all_beats = events(obs, "beat", hb["id"])
+            beats = [e for e in all_beats if t0 <= e[0] <= t1]
+            control = [e for e in all_beats if c0 <= e[0] <= c1]
+            if len(control) < 8:
+                continue  # the machine is too loaded to judge anything
+            rate, rate_c = len(beats) / max(t1 - t0, 1), len(control) / max(c1 - c0, 1)
+            if rate < 0.15 * rate_c:
+                res.fail("coroutines-stalled-by-thread", f"{hb['flavour']} heartbeat logged {len(beats)} beats during the {(t1 - t0) / 1e6:.0f} ms in which payload {p['id']} ({p['flavour']}) was blocked, against {len(control)} beats in the idle {(c1 - c0) / 1e6:.0f} ms control window")
     return res
 
 
 def run_case(sc) -> Result:
     obs = run_scenario(sc)
     res = judge(sc, obs)
+    if res.violations and all(v.clause == "coroutines-stalled-by-thread" for v in res.violations):
+        # a stall is a timing observation: a defect (a lock or a blocking call on the loop thread) repeats every
+        # time, a scheduling hiccup of a loaded machine does not - report only what shows in three runs out of three
+        for _ in range(2):
+            again = judge(sc, run_scenario(sc))
+            if not any(v.clause == "coroutines-stalled-by-thread" for v in again.violations):
+                res.violations = []
+                res.cls("stall-not-reproduced")
+                break
     nt = False
     for flv in COROUTINE:
         hows = [p.get("how") for p in sc["payloads"] if p["role"] == "worker" and p["flavour"] == flv]
